@@ -5,6 +5,7 @@ mod proto;
 mod rng;
 mod run;
 mod c01;
+mod c02;
 mod c04;
 mod c05;
 mod c06;
@@ -51,6 +52,7 @@ fn main() {
     let mut ctx = Ctx { tier_thorough: args[2] == "thorough", seed: args[3].parse().unwrap_or(0), out: Vec::new() };
     match args[1].as_str() {
         "C01" => c01::run(&mut ctx),
+        "C02" => c02::run(&mut ctx),
         "C04" => c04::run(&mut ctx),
         "C05" => c05::run(&mut ctx),
         "C06" => c06::run(&mut ctx),
